@@ -274,6 +274,15 @@ def handle (j : Json) : Except String Json := do
         | some (.bool b) => Json.str (if b then "1" else "0")
         | none => Json.null).toArray)
     return Json.mkObj [("ok", Json.arr outs.toArray)]
+  | "params_template" =>
+    let m ← parseModel (← j.getObjVal? "model")
+    let fp := functionParams m
+    let ss := shockShapes m
+    return Json.mkObj [("ok", Json.mkObj [
+      ("functions", Json.mkObj (fp.map fun (f, ps) => (f, toJson ps))),
+      ("function_order", toJson (fp.map (·.1))),
+      ("shocks", Json.mkObj (ss.map fun (x, sh) => (x, toJson sh))),
+      ("has_shocks", toJson (!ss.isEmpty))])]
   | "variable_info" =>
     let m ← parseModel (← j.getObjVal? "model")
     return Json.mkObj [("ok", toJson ((variableInfo m).map (·.name)))]
